@@ -167,6 +167,9 @@ type Explorer struct {
 	MaxExecs int64         // 0 = none
 	MaxFound int           // stop after this many distinct-signature violations (default 20)
 	PanicSig func(string) string // maps a recovered panic text to a signature; nil => "panic"
+	// ReportIrreproducible: a violation that a re-run of the same choice vector does not reproduce is reported
+	// (own signature suffix) instead of being an infrastructure error: see confirm.
+	ReportIrreproducible bool
 
 	mu       sync.Mutex
 	seen     map[string]int
@@ -385,6 +388,23 @@ func (e *Explorer) confirm(body Body, x *Exec, v *Violation) {
 			got := "<nil>"
 			if v2 != nil {
 				got = v2.Sig
+			}
+			if e.ReportIrreproducible {
+				// The world is rebuilt from scratch for every execution, so an outcome that differs between two
+				// executions of the same choice vector depends on state that outlives the world: package-level
+				// state of the code under test (an object pool, a cache, a counter). The violating execution did
+				// happen on the real code; it is reported under its own signature, with what the re-run gave.
+				sig := v.Sig + "/outcome-depends-on-earlier-executions-in-the-process"
+				if _, dup := e.found[sig]; !dup {
+					tags := make([]string, len(x.Points))
+					for i, p := range x.Points {
+						tags[i] = p.Tag
+					}
+					e.found[sig] = &Found{Sig: sig, Msg: fmt.Sprintf("%s; a re-run of the same choice vector in a freshly built world gave %s %s: the outcome depends on state that outlives the world (package-level state of the code under test)", v.Msg, got, infra),
+						Choices: append([]int{}, x.Choices...), Tags: tags}
+				}
+				e.mu.Unlock()
+				return
 			}
 			e.infra = append(e.infra, fmt.Sprintf("nondeterministic replay of %v: first %s then %s %s", x.Choices, v.Sig, got, infra))
 			e.mu.Unlock()
